@@ -24,4 +24,9 @@ def copyWithin (v : Bytes) (a b dest : Nat) : Res Bytes :=
 def copyFromSlice (v : Bytes) (a b : Nat) (src : Bytes) : Res Bytes :=
   if a ≤ b ∧ b ≤ v.length ∧ src.length = b - a then .ok (v.take a ++ src ++ v.drop b) else .panic
 
+/-- `Option::unwrap` -/
+def unwrapOpt {α : Type} : Option α → Res α
+  | some a => .ok a
+  | none => .panic
+
 end Dns.Tr
